@@ -329,7 +329,9 @@ func parseTopicAccess(acs *MsgDefaultAcsMode, defAuth, defAnon types.AccessMode)
 	authMode, anonMode = defAuth, defAnon
 
 	if acs.Auth != "" {
-		err = authMode.UnmarshalText([]byte(acs.Auth))
+		if err = authMode.UnmarshalText([]byte(acs.Auth)); err != nil {
+			return
+		}
 	}
 	if acs.Anon != "" {
 		err = anonMode.UnmarshalText([]byte(acs.Anon))
